@@ -3,6 +3,9 @@ package main
 import (
 	"encoding/json"
 	"fmt"
+	suc "github.com/google/safehtml/uncheckedconversions"
+	"os"
+	"os/exec"
 	"strings"
 	"sync/atomic"
 
@@ -390,8 +393,12 @@ func c06ContextScenario() *hist.Scenario {
 			`{{define "rh"}}{{.S}}{{if .N}}{{template "rh" .N}}{{end}}" title="{{.S}}{{end}}` +
 			`{{define "ra"}}<a href="{{template "rh" .}}">x</a>{{end}}` +
 			`{{define "rt"}}<a title="{{template "rh" .}}">x</a>{{end}}` +
+			// a predefined escaper in one pipeline, the same context without it in another (typed data tells them apart)
+			`{{define "ph"}}<p>{{.S | html}}</p>{{end}}{{define "pq"}}<p>{{.S}}</p>{{end}}` +
+			// a callee that only extends the static URL prefix, used by two call sites
+			`{{define "T"}}?q={{end}}{{define "A"}}<a href="/p{{template "T"}}{{.S}}">a</a>{{end}}{{define "B"}}<a href="/p{{template "T"}}{{.S}}">b</a>{{end}}` +
 			`R{{template "top" .}}`,
-		Data: histData(),
+		Data: append(histData(), map[string]interface{}{"S": suc.HTMLFromStringKnownToSatisfyTypeContract("<b>x</b>"), "L": []string{}}),
 	}
 }
 
@@ -401,6 +408,14 @@ func c06ContextAlphabet() []hist.Op {
 		ops = append(ops, hist.Op{Kind: hist.Exec, H: 0, Form: 2, Name: name, Arg: 0})
 	}
 	ops = append(ops, hist.Op{Kind: hist.Exec, H: 0, Form: 0, Arg: 0}, hist.Op{Kind: hist.Exec, H: 0, Form: 2, Name: "ra", Arg: 1})
+	for _, name := range []string{"ph", "pq", "text2"} {
+		if name != "text2" {
+			ops = append(ops, hist.Op{Kind: hist.Exec, H: 0, Form: 2, Name: name, Arg: 2})
+		}
+	}
+	for _, name := range []string{"A", "B"} {
+		ops = append(ops, hist.Op{Kind: hist.Exec, H: 0, Form: 2, Name: name, Arg: 0})
+	}
 	return ops
 }
 
@@ -470,7 +485,7 @@ func c08Scenario() *hist.Scenario {
 		Init: `{{define "brk"}}{{range .L}}{{break}}{{end}}{{end}}{{define "cnt"}}{{range .L}}{{continue}}{{end}}{{end}}` +
 			`{{define "bad"}}<a {{end}}{{define "cb"}}x{{template "bad"}}{{end}}{{define "empty"}}{{end}}{{define "ce"}}{{template "empty"}}{{end}}` +
 			`{{define "cmt"}}a{{/* c */}}b{{end}}{{define "tagend"}}<my-{{end}}{{define "tagend2"}}<svg:{{end}}ROOT`,
-		Texts: []string{`{{define "x"}}{{.S}`, `{{define "bad"}}ok{{end}}`},
+		Texts: []string{`{{define "x"}}{{.S}`, `{{define "bad"}}ok{{end}}`, `<p {{.S}}>x</p>`, `<p>{{.S}}</p>`},
 		Data:  histData(),
 	}
 }
@@ -492,6 +507,61 @@ func c08Alphabet() []hist.Op {
 	return ops
 }
 
+// histObsSubcommand (vcheck hist-obs <scenario> <ops JSON>) prints the observation of the last call of a history run
+// in this, freshly started, process. histProcessFresh compares such observations with the ones obtained at the end
+// of a long exploration in the checking process: state that the library keeps outside the template set (package
+// variables, caches, pools) is invisible to the reference "same calls on a freshly built set" of the same process.
+func histObsSubcommand(scName, opsJSON string) int {
+	buildHistScenarios()
+	sc := histScenarios[scName]
+	var ops []hist.Op
+	if sc == nil || json.Unmarshal([]byte(opsJSON), &ops) != nil || len(ops) == 0 {
+		fmt.Println("{}")
+		return 2
+	}
+	obs, err := hist.Run(sc, ops, false)
+	if err != nil || len(obs) != len(ops) {
+		fmt.Println("{}")
+		return 2
+	}
+	b, _ := json.Marshal(obs[len(obs)-1])
+	fmt.Println(string(b))
+	return 0
+}
+
+func histProcessFresh(r *core.Run, sc *hist.Scenario, alphabet []hist.Op) {
+	exe, err := os.Executable()
+	if err != nil {
+		r.HarnessError("os.Executable: %v", err)
+		return
+	}
+	var n int
+	for _, o := range alphabet {
+		if o.Kind != hist.Exec {
+			continue
+		}
+		ops := []hist.Op{o}
+		here, err := hist.Run(sc, ops, false)
+		if err != nil || len(here) != 1 {
+			continue
+		}
+		j, _ := json.Marshal(ops)
+		out, err := exec.Command(exe, "hist-obs", sc.Name, string(j)).Output()
+		var fresh hist.Obs
+		if err != nil || json.Unmarshal(out, &fresh) != nil {
+			r.HarnessError("hist-obs %s %s: %v %s", sc.Name, j, err, out)
+			return
+		}
+		n++
+		if fresh.Out != here[0].Out || fresh.Err != here[0].Err {
+			r.Witness("history-dependent", sc.Name+" process-wide state in "+o.String(), renderOps(ops),
+				fmt.Sprintf("scenario %s: after the exploration, [%s] on a freshly built set gives (%q, err=%v), in a freshly started process (%q, err=%v): the result depends on calls made on other sets", sc.Name, renderOps(ops), here[0].Out, here[0].Err, fresh.Out, fresh.Err),
+				histReplay{sc.Name, ops})
+		}
+	}
+	r.Set("process_fresh_"+sc.Name, fmt.Sprintf("%d single-call histories compared with a freshly started process after the exploration", n))
+}
+
 func buildHistScenarios() {
 	for _, k := range failKinds {
 		sc := c05Scenario(k)
@@ -503,6 +573,12 @@ func buildHistScenarios() {
 	stale := c07Scenario()
 	stale.Name = "stale-handles"
 	histScenarios[stale.Name] = stale
+	bl := c07Scenario()
+	bl.Name = "clone-bodyless"
+	histScenarios[bl.Name] = bl
+	rp := c08Scenario()
+	rp.Name = "replaced-template"
+	histScenarios[rp.Name] = rp
 }
 
 // ---- the four checks -------------------------------------------------------------
@@ -582,6 +658,8 @@ func checkC06(r *core.Run) {
 		}
 		return c06Alphabet()
 	}, depth, false)
+	histProcessFresh(r, c06Scenario(), c06Alphabet())
+	histProcessFresh(r, c06ContextScenario(), c06ContextAlphabet())
 	r.Sample(map[string]string{"scenario": "shared-helper", "history": renderOps(c06Alphabet()[2:5])})
 	r.Assume("expected value of every call = the same call on a freshly built set (no hand-written expectations)")
 }
@@ -600,6 +678,22 @@ func checkC07(r *core.Run) {
 			r.Witness(f.clause, stale.Name+" "+f.discr, renderOps(ops), f.detail, histReplay{stale.Name, append([]hist.Op{}, ops...)})
 		}
 	})
+	// templates declared with New that have no body when the set is cloned
+	bl := c07Scenario()
+	bl.Name = "clone-bodyless"
+	blAlpha := []hist.Op{
+		{Kind: hist.New, H: 0, Name: "sb", Dst: 1}, {Kind: hist.Clone, H: 0, Dst: 2}, {Kind: hist.Lookup, H: 2, Name: "sb", Dst: 3}, {Kind: hist.Parse, H: 3, Arg: 1}, {Kind: hist.Parse, H: 1, Arg: 0},
+		{Kind: hist.Exec, H: 0, Form: 2, Name: "sb", Arg: 0}, {Kind: hist.Exec, H: 2, Form: 2, Name: "sb", Arg: 0}, {Kind: hist.Exec, H: 0, Form: 0, Arg: 0}, {Kind: hist.Exec, H: 2, Form: 2, Name: "n", Arg: 0},
+	}
+	var st3 histStats
+	exploreHist(r, bl, blAlpha, depth+1, false, &st3, func(f histFinding, ops []hist.Op) {
+		if c07Clauses[f.clause] {
+			r.Witness(f.clause, bl.Name+" "+f.discr, renderOps(ops), f.detail, histReplay{bl.Name, append([]hist.Op{}, ops...)})
+		}
+	})
+	r.Set("scenario_clone-bodyless", fmt.Sprintf("%d ops, depth<=%d: histories=%d", len(blAlpha), depth+1, st3.states))
+	r.Add("states", st3.states)
+	r.Add("transitions", st3.transitions)
 	r.Set("scenario_stale-handles", fmt.Sprintf("%d ops, depth<=%d: histories=%d", len(c07StaleAlphabet()), depth+1, st2.states))
 	r.Add("states", st2.states)
 	r.Add("transitions", st2.transitions)
@@ -629,6 +723,22 @@ func checkC08(r *core.Run) {
 		return c05Alphabet()
 	}
 	histRun(r, c08Clauses, scs, alpha, depth, true)
+	// a template replaced by New(same name) and parsed again through the old handle
+	rp := c08Scenario()
+	rp.Name = "replaced-template"
+	rpAlpha := []hist.Op{
+		{Kind: hist.New, H: 0, Name: "root", Dst: 1}, {Kind: hist.Parse, H: 0, Arg: 2}, {Kind: hist.Parse, H: 1, Arg: 2}, {Kind: hist.Parse, H: 0, Arg: 3},
+		{Kind: hist.Exec, H: 0, Form: 0, Arg: 0}, {Kind: hist.Exec, H: 0, Form: 1, Arg: 0}, {Kind: hist.Exec, H: 1, Form: 0, Arg: 0}, {Kind: hist.Exec, H: 0, Form: 2, Name: "root", Arg: 0},
+	}
+	var st2 histStats
+	exploreHist(r, rp, rpAlpha, depth+1, true, &st2, func(f histFinding, ops []hist.Op) {
+		if c08Clauses[f.clause] {
+			r.Witness(f.clause, rp.Name+" "+f.discr, renderOps(ops), f.detail, histReplay{rp.Name, append([]hist.Op{}, ops...)})
+		}
+	})
+	r.Set("scenario_replaced-template", fmt.Sprintf("%d ops, depth<=%d: histories=%d", len(rpAlpha), depth+1, st2.states))
+	r.Add("states", st2.states)
+	r.Add("transitions", st2.transitions)
 	c08Syntax(r)
 	r.Sample(map[string]string{"scenario": "totality", "history": renderOps(c08Alphabet()[:3])})
 	r.Assume("every API call runs under recover and a 30 s watchdog (the calls take microseconds); a timeout is only a hang if it reproduces")
